@@ -226,6 +226,9 @@ def keyRaw (s : St) : SetKey → List Htlc
 def otherRaw (s : St) : SetKey → List Htlc
   | .loc => s.rawR ++ s.rawP | .rem => s.rawP | .pend => s.rawR
 
+def keyName : SetKey → String
+  | .loc => "local" | .rem => "remote" | .pend => "pending"
+
 def unitMonitorConstruct (s : St) (k : SetKey) (nonChain : Bool) (implStr : String) : IO St := do
   if !s.wf || !nonChain then return s
   let m := parseActionString implStr
@@ -238,30 +241,30 @@ def unitMonitorConstruct (s : St) (k : SetKey) (nonChain : Bool) (implStr : Stri
   for h in Mon.outs kl do
     if h.outputIndex ≥ 0 then
       if count resOut h.index != 1 then
-        s ← monitor s "exactly-one-resolver" s!"unit key={repr k} outgoing idx={h.index} with output is in {count resOut h.index} of Timeout/OutgoingWatch"
+        s ← monitor s "exactly-one-resolver" s!"unit key={keyName k} outgoing idx={h.index} with output is in {count resOut h.index} of Timeout/OutgoingWatch"
       if count failed h.index != 0 then
-        s ← monitor s "failback-with-output" s!"unit key={repr k} outgoing idx={h.index} has an output but is classified FailDust/FailDangling"
+        s ← monitor s "failback-with-output" s!"unit key={keyName k} outgoing idx={h.index} has an output but is classified FailDust/FailDangling"
     else
       if count failed h.index != 1 then
-        s ← monitor s "dust-failed-once" s!"unit key={repr k} outgoing dust idx={h.index} is {count failed h.index} times in FailDust/FailDangling"
+        s ← monitor s "dust-failed-once" s!"unit key={keyName k} outgoing dust idx={h.index} is {count failed h.index} times in FailDust/FailDangling"
       if count resOut h.index != 0 then
-        s ← monitor s "exactly-one-resolver" s!"unit key={repr k} outgoing dust idx={h.index} got a resolver action"
+        s ← monitor s "exactly-one-resolver" s!"unit key={keyName k} outgoing dust idx={h.index} got a resolver action"
   for h in Mon.ins kl do
     if h.outputIndex ≥ 0 then
       if count resIn h.index != 1 || count finals h.index != 0 then
-        s ← monitor s "exactly-one-resolver" s!"unit key={repr k} incoming idx={h.index} with output: IncomingWatch×{count resIn h.index} DustFinal×{count finals h.index}"
+        s ← monitor s "exactly-one-resolver" s!"unit key={keyName k} incoming idx={h.index} with output: IncomingWatch×{count resIn h.index} DustFinal×{count finals h.index}"
     else
       if count finals h.index != 1 || count resIn h.index != 0 then
-        s ← monitor s "incoming-dust-final" s!"unit key={repr k} incoming dust idx={h.index}: DustFinal×{count finals h.index} IncomingWatch×{count resIn h.index}"
+        s ← monitor s "incoming-dust-final" s!"unit key={keyName k} incoming dust idx={h.index}: DustFinal×{count finals h.index} IncomingWatch×{count resIn h.index}"
   -- dangling: offered HTLCs on another commitment only
   if k == .loc || Mon.protocolShape s.rawL (keyRaw s k) then
     for h in Mon.outs (otherRaw s k) do
       if !(Mon.outs kl).any (·.index == h.index) then
         if s.pre.contains h.hash then
           if count failed h.index != 0 then
-            s ← monitor s "dangling-preimage-failed" s!"unit key={repr k} dangling idx={h.index} with known preimage classified for fail-back"
+            s ← monitor s "dangling-preimage-failed" s!"unit key={keyName k} dangling idx={h.index} with known preimage classified for fail-back"
         else if count failed h.index != 1 then
-          s ← monitor s "dangling-failed-once" s!"unit key={repr k} dangling idx={h.index} is {count failed h.index} times in FailDust/FailDangling"
+          s ← monitor s "dangling-failed-once" s!"unit key={keyName k} dangling idx={h.index} is {count failed h.index} times in FailDust/FailDangling"
   return s
 
 /-- is a force close due at `height` because of an HTLC on our commitment?  `none` = only HTLCs in
@@ -365,10 +368,10 @@ def confMonitor (s : St) (k : SetKey) (preState : String) (opFails : List Nat)
         if s.pre.contains h.hash then
           if c != 0 then
             s ← monitor s "dangling-preimage-failed" s!"conf={kname} dangling idx={h.index} with known preimage was failed upstream"
-        else if (c == 0 || c > 1) && k == .loc && preState == "D" && copiesDisagree s h.index then
-          -- our own commitment confirmed while still in StateDefault and the peer's two
-          -- commitments disagree on whether the HTLC is dust: the Go map iteration order of the
-          -- two `constructChainActions` calls decides between 0, 1 and 2 fail-backs.
+        else if ((c == 0 && preState == "D") || c > 1) && k == .loc && copiesDisagree s h.index then
+          -- our own commitment confirmed and the peer's two commitments disagree on whether the
+          -- HTLC is dust: the Go map iteration order of the two chain-action computations on
+          -- the path decides between 0, 1 and 2 fail-backs.
           s := { s with orderDependentHits := s.orderDependentHits + 1 }
           s ← monitor s "failback-remote-copies-disagree" s!"conf={kname} pre={preState} kind={if c == 0 then "missing" else "duplicate"} idx={h.index}: failed upstream {c} times"
         else if c == 0 then
